@@ -86,4 +86,10 @@ def wfPart : Part → Prop
   | .literal l => l ≠ []
   | .spec s => typeOfChar s.fchar = some s.ftype
 
+/-- for each specifier of a split template, whether it has a mapping key -/
+def specKeyed : List (Nat × Part) → List Bool
+  | [] => []
+  | (_, .literal _) :: ps => specKeyed ps
+  | (_, .spec s) :: ps => s.key.isSome :: specKeyed ps
+
 end PV.C19
